@@ -227,6 +227,10 @@ func indexIngest(repo Repo, index *types.Index, conf config.Config, locked bool)
 				referrerResponse[refSubj.String()] = newDesc
 				mod = true
 			}
+			// a read-only store cannot save a new response, the fallback tag is left as it is
+			if !valid && *conf.Storage.ReadOnly {
+				continue
+			}
 			// if the response cannot be quickly converted, save for later
 			if !valid {
 				for refSubj := range refResp {
